@@ -48,6 +48,32 @@ def recase(text, mode, user_names):
     return "".join(out)
 
 
+# compound keywords that may be written without the blank (Fortran 2003 3.3.1: "blanks are optional between ...")
+_TIGHT_START = [("end block data", "endblockdata"), ("end do", "enddo"), ("end if", "endif"), ("else if", "elseif"),
+                ("select case", "selectcase"), ("select type", "selecttype"), ("end select", "endselect"),
+                ("end program", "endprogram"), ("end subroutine", "endsubroutine"), ("end function", "endfunction"),
+                ("end module", "endmodule"), ("end type", "endtype"), ("end interface", "endinterface"),
+                ("end where", "endwhere"), ("end forall", "endforall"), ("end associate", "endassociate"),
+                ("end block", "endblock"), ("block data", "blockdata"), ("end enum", "endenum"),
+                ("end critical", "endcritical"), ("end submodule", "endsubmodule"), ("end file", "endfile"),
+                ("go to", "goto"), ("double precision", "doubleprecision")]
+_TIGHT_ANY = [(re.compile(r"\bgo to\b"), "goto"), (re.compile(r"\bdouble precision\b"), "doubleprecision"),
+              (re.compile(r"\(in out\)"), "(inout)")]
+
+
+def tighten(text):
+    """the same statement with its compound keywords written without the optional blank (outside literals)"""
+    for a, b in _TIGHT_START:
+        if text.startswith(a) and (len(text) == len(a) or not (text[len(a)].isalnum() or text[len(a)] == "_")):
+            text = b + text[len(a):]
+            break
+    if "'" in text or '"' in text:
+        return text
+    for rx, b in _TIGHT_ANY:
+        text = rx.sub(b, text)
+    return text
+
+
 class Layout:
     """result of laying out a program"""
 
@@ -62,7 +88,7 @@ class Layout:
         return "\n".join(self.lines) + "\n"
 
 
-def free_layout(stmts, rng, user_names, p_break=0.35, p_comment=0.25, p_join=0.2, p_lit_break=0.3,
+def free_layout(stmts, rng, user_names, p_break=0.35, p_comment=0.25, p_join=0.2, p_lit_break=0.3, p_tight=0.25,
                 case="keep", comments=True, indent_mode=None, max_breaks=3):
     L = Layout()
     feats = L.features
@@ -123,7 +149,7 @@ def free_layout(stmts, rng, user_names, p_break=0.35, p_comment=0.25, p_join=0.2
                 L.stmt_of.append(len(L.stmt_span) - 1)
             i += len(group)
             continue
-        text = recase(s.text, case, user_names)
+        text = recase(tighten(s.text) if rng.random() < p_tight else s.text, case, user_names)
         head = ("%d " % s.label if s.label is not None else "") + ("%s: " % s.name if s.name else "")
         toks = split_tokens(text)
         # choose break points: before token k (k >= 1), or inside a string token
